@@ -714,6 +714,7 @@ def execute(scn):
             uniq.append(v)
     stats = dict(st)
     stats["events"] = len(run.log)
+    stats["state_sigs"] = [common.h64(x) for x in run.states]
     stats["faults"] = dict(run.faults_fired)
     stats["switch_sig"] = common.h64(common.switch_signature(run.log))
     return {"violations": uniq, "digest": run.digest(), "nontrivial": shapes, "stats": stats}
